@@ -270,7 +270,12 @@ func (prop) Generate(rng *core.Rand, tier string, emit func(string)) {
 		total = 80000
 	}
 	bad := rng.Fork()
+	prx := rng.Fork()
 	for k := 0; k < total; k++ {
+		if k%12 == 5 {
+			emit(genProxy(prx))
+			continue
+		}
 		pool := genPool(rng, tier)
 		chain := genChain(rng, pool)
 		leaf := chain[len(chain)-1]
